@@ -98,3 +98,16 @@ CATALOGUE = [
     dict(id='RB8-linker-swapped-conjuncts', kind=B, props=['C12'],
          edits=[(ST, "                        if morgan[n1] != morgan[n2] and morgan[m1] != morgan[m2])", "                        if morgan[m2] != morgan[m1] and morgan[n2] != morgan[n1])")]),
 ]
+
+# -- dataflow hygiene ----------------------------------------------------------------------------------------------------------------------
+CATALOGUE += [
+    dict(id='R22-query-get-mapping-drops-searching-scope', kind=M, props=['C07', 'C09'],
+         edits=[(ISO, "        for mapping in self._get_mapping(other, automorphism_filter=automorphism_filter, searching_scope=searching_scope,\n                                         components=components, get_mapping=get_mapping):\n            reverse = None",
+                 "        for mapping in self._get_mapping(other, automorphism_filter=automorphism_filter,\n                                         components=components, get_mapping=get_mapping):\n            reverse = None")]),
+    dict(id='R23-explicify-start-map-ignored', kind=M, props=['C14'], rule='C14.H-dataflow-hygiene',
+         edits=[(STD, "            m = start_map if start_map is not None else max(atoms) + 1", "            m = max(atoms) + 1")]),
+    dict(id='R24-closure-record-unused-index', kind=M, props=['C03'],
+         edits=[(PRS, "                order[a][ind] = last_num", "                order[a][order[a].index(None)] = last_num")]),
+    dict(id='RB9-unused-underscore-local', kind=B, props=['C07', 'C14'],
+         edits=[(STD, "            m = start_map if start_map is not None else max(atoms) + 1", "            _first = max(atoms) + 1\n            m = start_map if start_map is not None else max(atoms) + 1")]),
+]
